@@ -63,12 +63,14 @@ def run(tier, replay=None):
                 common.selftest_library(r, ev, "C02")
                 first = False
     # (C) larger complexities without the deduplication rounds: trees_n / all_equations_n produced by the same calls main makes
-    big = [("core_maths", 6)] if tier == "quick" else [("core_maths", 6), ("core_maths", 7), ("ext_maths", 5), ("keep_duplicates", 4)]
+    big = [("core_maths", 6), ("verif_long", 7)] if tier == "quick" else [("core_maths", 6), ("core_maths", 7), ("ext_maths", 5), ("keep_duplicates", 4), ("verif_long", 7)]
+    S = dict(S, verif_long=[["x", "a"], ["log10_abs"], ["-"]])       # function strings of 80 and more characters (log(Abs(.))/log(10) nested)
     import types, os
     from harness import lib as _lib, libio, libproj, coord
     for name, n in big:
-        out = os.path.join(s, "c02_strings_%s_%d" % (name, n))
-        res = coord.run_ranks(1, "harness.targets:gen_strings", (S[name], n, out), s, timeout=3000)
+        s2 = scratch.make()            # its own scratch copy: the library directory of this run name holds unfinished files
+        out = scratch.libdir(s2, name, n)
+        res = coord.run_ranks(1, "harness.targets:gen_strings", (name, n, S[name] if name.startswith("verif_") else None), s2, timeout=3000)
         if res["status"] != "ok":
             r.violation("gen_crash:%s:n%d" % (name, n), "tree and function lists of %s n=%d were not produced: %s\n%s" % (name, n, res["detail"], coord.tail(res["out"][0], 8)), {"runname": name, "n": n})
             continue
